@@ -175,7 +175,7 @@ structure St where
   socketPeers : List Nat := []
   halfReady : List Nat := []
   appWaiting : List ((Nat × Nat) × Nat) := []
-  peerWaiting : List (String × List Nat) := []
+  peerWaiting : List (Nat × List Nat) := []           -- `_peer_waiting_answer`: connection id ↦ hop-by-hop ids of unanswered requests
   originWaiting : List ((Nat × Nat × Nat) × Option String) := []   -- (connection, hbh, e2e) → origin
   sentAnswers : List (Option String × (Nat × List Nat)) := []   -- origin → (maxlen, deque)
   e2e : Nat
@@ -268,7 +268,8 @@ def removePeerConnection (s : St) (cid : Nat) (reason : Reason) : St :=
                      reason := match p.reason with | none => some reason | r => r }
         else s
       | none => s
-    let s := if isCurrent then { s with peerWaiting := s.peerWaiting.filter (·.1 != c.hostIdentity) } else s
+    -- pending answers of *this* connection are forgotten
+    let s := { s with peerWaiting := s.peerWaiting.filter (·.1 != cid) }
     -- application readiness: per app, any configured peer with a ready connection
     let appPeers (ai : Nat) : List Nat :=
       s.routes.flatMap fun (_, tbl) => tbl.flatMap fun (k, ps) => if k == RKey.app ai then ps else []
@@ -402,7 +403,7 @@ def sendMessage (s : St) (cid : Nat) (m : AMsg) (hasRC : Bool) : St × Bool :=
     let s :=
       if !m.isRequest then
         { s with peerWaiting := s.peerWaiting.map fun (h, l) =>
-            if h == c.hostIdentity then (h, l.filter (· != m.hbh)) else (h, l) }
+            if h == cid then (h, l.filter (· != m.hbh)) else (h, l) }
       else s
     let s := s.modConn cid fun x => { x with outQ := x.outQ ++ [m] }
     if !m.isRequest then (recordAnswerState s cid m, !recordAnswerRaises s cid m hasRC)
@@ -603,10 +604,10 @@ def receiveAppRequest (s : St) (cid : Nat) (m : AMsg) (info : MsgInfo) : HR :=
             | .dflt => none
           match pick with
           | some ai =>
-            let s := if s.peerWaiting.any (·.1 == c.hostIdentity) then
+            let s := if s.peerWaiting.any (·.1 == cid) then
                 { s with peerWaiting := s.peerWaiting.map fun (h, l) =>
-                    if h == c.hostIdentity then (h, if l.contains m.hbh then l else l ++ [m.hbh]) else (h, l) }
-              else { s with peerWaiting := s.peerWaiting ++ [(c.hostIdentity, [m.hbh])] }
+                    if h == cid then (h, if l.contains m.hbh then l else l ++ [m.hbh]) else (h, l) }
+              else { s with peerWaiting := s.peerWaiting ++ [(cid, [m.hbh])] }
             appReceiveRequest s ai m
           | none =>
             let r := sendMessage s cid (generateAnswer s m info (some 3007)) info.ansTyped
